@@ -469,6 +469,9 @@ def _pt_fncall(node, args, fns, mode: str):
     names = node["p"].get("kw") or [None] * len(args)
     pos = [a for a, nm in zip(args, names) if nm is None]
     kw = {nm: a for a, nm in zip(args, names) if nm is not None}
+    if node["p"].get("kw_reversed"):
+        # the caller's keyword order is not the parameter order
+        kw = dict(reversed(list(kw.items())))
     if mode == "direct":
         out = f(*pos, **kw)
     else:
